@@ -1,8 +1,7 @@
 import Geo.Props.C09
-open Geo
-#print axioms T09_1_brackets
-#print axioms T09_1_dist_sq
-#print axioms T09_1_symmetric
-#print axioms T09_3_foot_2d
-#print axioms T09_3_foot_3d
-#print axioms T09_5_laguerre
+#print axioms Geo.T09_1_brackets
+#print axioms Geo.T09_1_dist_sq
+#print axioms Geo.T09_1_symmetric
+#print axioms Geo.T09_3_foot_2d
+#print axioms Geo.T09_3_foot_3d
+#print axioms Geo.T09_5_laguerre
